@@ -240,6 +240,35 @@ def run(ctx):
             ctx.seen(("T", vals, cname, not bad))
             if bad:
                 ctx.fail_input("metamorphic", dict(cls=cname, M=M.tolist(), rng=st, exact_evals=list(vals)), " | ".join(bad[:6]), classify)
+    # ---- histories on ONE tensor object: descriptors read, the order attribute changed (once or twice), descriptors read again: unchanged, and equal to
+    #      those of a tensor constructed with the final order
+    ORD = ["i", "d", "h", "n"]
+    for t in range(60 if quick else 900):
+        cname = rng.choice(sorted(cls))
+        M = np.array([[rng.randint(-40, 40) / 4.0 for _ in range(3)] for _ in range(3)])
+        if rng.random() < 0.3:
+            M = (M + M.T) / 2 - np.eye(3) * np.trace(M) / 3 + rng.choice([0.0, 2.5]) * np.eye(3)
+        o0 = rng.choice(ORD)
+        seq = [rng.choice(ORD) for _ in range(rng.randint(1, 3))]
+        ctx.evaluations += 1
+        try:
+            T = cls[cname](M.copy(), o0)
+            d0 = descr(T)
+            scale = max(1.0, float(np.abs(M).max()))
+            skip = ill(d0, scale)
+            for o in seq:
+                T.order = o
+            d1 = descr(T)
+            d2 = descr(cls[cname](M.copy(), seq[-1]))
+            bad = [k for k in range(6) if k not in skip and not (close(d1[k], d0[k], scale) and close(d1[k], d2[k], scale))]
+            ctx.seen(("order-history", cname, o0, tuple(seq), not bad))
+            if bad:
+                names = ["isotropy", "anisotropy", "reduced_anisotropy", "asymmetry", "span", "skew"]
+                ctx.fail_input("history", dict(cls=cname, M=M.tolist(), order=o0, reorder=seq),
+                               "constructed with order %r, then order = %s: %s changes from %r to %r (a tensor constructed with %r gives %r)" %
+                               (o0, seq, names[bad[0]], float(d0[bad[0]]), float(d1[bad[0]]), seq[-1], float(d2[bad[0]])), classify)
+        except Exception as e:
+            ctx.fail_input("history", dict(cls=cname, M=M.tolist(), order=o0, reorder=seq), "raised %s: %s" % (type(e).__name__, str(e)[:160]), classify)
     if ctx.tier == "thorough":
         ctx.coqchk()
 
